@@ -160,10 +160,26 @@ func ruleEndOfInputClosesAll(w *World, r *Report) {
 		}
 		return false
 	}
+	// (directly, or through a function of the same package it calls: the loop body extracted into a helper)
+	invokesDeep := func(fn *ssa.Function, method string) bool {
+		if invokes(fn, method) {
+			return true
+		}
+		for _, b := range fn.Blocks {
+			for _, ins := range b.Instrs {
+				if c, ok := ins.(ssa.CallInstruction); ok {
+					if cal := c.Common().StaticCallee(); cal != nil && cal.Pkg == fn.Pkg && cal != fn && cal.Blocks != nil && invokes(cal, method) {
+						return true
+					}
+				}
+			}
+		}
+		return false
+	}
 	// the closing helper: invokes BlockParser.Close, has two int parameters
 	var closers []*ssa.Function
 	for _, fn := range w.Funcs {
-		if w.PkgOf(fn) != modPath+"/parser" || !invokes(fn, "Close") {
+		if w.PkgOf(fn) != modPath+"/parser" || !invokesDeep(fn, "Close") {
 			continue
 		}
 		ints := 0
@@ -224,6 +240,33 @@ func ruleEndOfInputClosesAll(w *World, r *Report) {
 					for _, ins := range lb.Instrs {
 						if c, ok := ins.(ssa.CallInstruction); ok && c.Common().IsInvoke() && c.Common().Method.Name() == "OpenedBlocks" && lb.Dominates(b) {
 							inside = true
+						}
+					}
+				}
+			}
+			// the per-line loop extracted into its own function: the list is fetched before the loop; a return is
+			// "inside" when the fetch dominates it and it leaves some loop from a block other than the loop header
+			if !inside {
+				fetched := false
+				for _, lb := range fn.Blocks {
+					for _, ins := range lb.Instrs {
+						if c, ok := ins.(ssa.CallInstruction); ok && c.Common().IsInvoke() && c.Common().Method.Name() == "OpenedBlocks" && lb.Dominates(b) {
+							fetched = true
+						}
+					}
+				}
+				for _, prm := range fn.Params {
+					if sl, ok := prm.Type().Underlying().(*types.Slice); ok && typeShort(sl.Elem()) == "parser.Block" {
+						fetched = true // the list of opened blocks is handed in
+					}
+				}
+				if fetched {
+					// the end-of-input exits: returns dominated by "the peeked line is nil"
+					for _, cf := range dominatingConds(b) {
+						for _, a := range condAtoms(cf.If.Cond, cf.Truth) {
+							if x, isNil, isT := nilTest(a.V); isT && isNil == a.Truth && peekedLine(x) {
+								inside = true
+							}
 						}
 					}
 				}
